@@ -4,6 +4,7 @@ import LanceModel.C13.PlanLemmas
 import LanceModel.C13.IndexLemmas
 import LanceModel.C13.EndToEnd
 import LanceModel.C13.ChainLemmas
+import LanceModel.C13.MultiBatch
 /-
 C13 — Compaction and other rewrites never change table contents.
 
@@ -220,6 +221,23 @@ private def exT : Table :=
 example : TableWF exT := ⟨by decide, by decide⟩
 example : (match compact ⟨2, true, 0, 1, true⟩ exT [] [] with
     | .ok out => out.table.frags.map (fun f => (f.id, f.rows.length)) | .error _ => []) = [(3, 2), (4, 1)] := by rfl
+
+/-- **compact_preserves (all schedules)**: `compact_preserves_all` (MultiBatch.lean) restated — any execution order,
+    any assignment of the executed tasks to up to three successive commits, dropped tasks included. -/
+theorem compact_preserves_any_schedule (o : Opts) (t : Table) (xs cs : List Nat) (out : CompactOut)
+    (hwf : TableWF t) (hsorted : SortedById t.frags) (ht : 0 < o.target) (h : compact o t xs cs = .ok out) :
+    (visible out.table.frags).Perm (visible t.frags) ∧ (out.table.frags.map Frag.id).Nodup :=
+  compact_preserves_all o t xs cs out hwf hsorted ht h
+
+private def exT2 : Table :=
+  { version := 5, frags := [small 0 1, small 1 2, small 2 3, small 3 4, small 4 5, small 5 6], maxFrag := 5,
+    stable := false, nextRowId := 0, idx := none, fri := [], friBitmap := none }
+
+-- non-vacuity: three tasks executed in the order 1, 2, 0: committed in batch 2, dropped, committed in batch 1
+example : SortedById exT2.frags ∧ TableWF exT2 := ⟨by unfold SortedById; decide, by decide, by decide⟩
+example : (match compact ⟨2, true, 0, 1, false⟩ exT2 [7, 7, 7] [2, 0, 1] with
+    | .ok out => (out.plan.map (·.map Frag.id), out.committed.map (·.length), out.table.frags.map (fun f => (f.id, f.rows.length)))
+    | .error _ => ([], [], [])) = ([[0, 1], [2, 3], [4, 5]], [1, 1], [(4, 1), (5, 1), (6, 2), (8, 2)]) := by rfl
 
 /-! ## the load_indices view and the deferred row address remap -/
 
